@@ -127,6 +127,8 @@ func (c10) Run(t *tape.Tape, st *Stats) *Violation {
 	if dstOpaque {
 		dstArg = opaqueDraw{dstArg}
 	}
+	simrt.ResetSteps(2000000) // a run of this size takes a few thousand steps; beyond the budget it is a livelock
+	defer simrt.ResetSteps(0)
 	racesBefore := simrt.RaceErrors()
 	var panicked interface{}
 	res := simrt.Run(sc, func() {
@@ -178,6 +180,9 @@ func (c10) Run(t *tape.Tape, st *Stats) *Violation {
 		lastRace = NewRaceText()
 		coarse, detail := RaceSignature(lastRace)
 		return fail("data-race", "data-race:"+coarse, fmt.Sprintf("%d race report(s), first: %s", races, detail))
+	}
+	if _, ok := panicked.(simrt.StepBudgetExceeded); ok || simrt.Tripped() {
+		return fail("livelock", "livelock:"+path, "step budget of 2000000 instrumented statements exceeded: a worker does not terminate")
 	}
 	if panicked != nil {
 		return fail("panic", "panic:"+path, fmt.Sprintf("panic: %v", panicked))
